@@ -133,5 +133,4 @@ theorem go_spec : ∀ (ts : List (Nat × Nat)) (cur E : Nat), Desc E ts →
       rw [Nat.add_mul, hp, Nat.mul_assoc]
       omega
 
-#print axioms go_spec
 end P.DictSum
